@@ -176,10 +176,24 @@ def property_file(pid):
     return os.path.join(COQ, "Properties", pid + ".v")
 
 
-def theorem_names(pid):
-    src = open(property_file(pid)).read()
+def extra_property_files(pid):
+    """Properties/<pid>_*.v: further theorems of the property, compiled as dependencies of Properties/<pid>.v (so only when they
+    or what they depend on change); each theorem's Print Assumptions is redirected to Properties/<pid>_<x>.<theorem>.out"""
+    import glob
+    return sorted(glob.glob(os.path.join(COQ, "Properties", pid + "_*.v")))
+
+
+def _theorems_in(path):
+    src = open(path).read()
     src = re.sub(r"\(\*.*?\*\)", "", src, flags=re.S)
     return re.findall(r"^\s*(?:Theorem|Corollary)\s+([A-Za-z0-9_']+)", src, flags=re.M)
+
+
+def theorem_names(pid):
+    names = _theorems_in(property_file(pid))
+    for f in extra_property_files(pid):
+        names += _theorems_in(f)
+    return names
 
 
 def coq_sources():
@@ -215,7 +229,17 @@ def build_property(pid, timeout=3000):
     except FileNotFoundError:  # carries the Print Assumptions lines
         pass
     rc, out = coq_make(["Properties/%s.vo" % pid], timeout=timeout)
-    return rc == 0, out
+    ok = rc == 0
+    # theorems in dependency files: their (redirected) Print Assumptions output, one file per theorem; a missing file is a failure
+    for f in extra_property_files(pid):
+        for t in _theorems_in(f):
+            o = f[:-2] + "." + t + ".out"
+            if ok and not (os.path.exists(o) and os.path.getmtime(o) >= os.path.getmtime(f)):
+                ok = False
+                out += "\nFile \"./Properties/%s\", line 1: no up-to-date Print Assumptions output for %s\n" % (os.path.basename(f), t)
+            elif os.path.exists(o):
+                out += "\n" + open(o).read() + "\n"
+    return ok, out
 
 
 def parse_assumptions(log_text):
